@@ -10,7 +10,6 @@ import (
 	"io"
 	"net"
 	"net/http"
-	"net/http/httptest"
 	"net/url"
 	"strings"
 	"sync"
@@ -188,11 +187,14 @@ func runH(c HCase) error {
 			return fx.Inconclusive("register: %v", err)
 		}
 	}
-	ts := httptest.NewServer(rp)
+	// an in-memory listener: the handler under test is pure HTTP, and hundreds of thousands of loopback
+	// connections per run would exhaust the ephemeral ports
+	pl := fx.NewPipeListener()
+	ts := &http.Server{Handler: rp}
+	go func() { _ = ts.Serve(pl) }()
 	defer ts.Close()
-	addr := ts.Listener.Addr().String()
 	h2 := &http2.Transport{AllowHTTP: true, DialTLSContext: func(ctx context.Context, network, a string, _ *tls.Config) (net.Conn, error) {
-		return net.DialTimeout("tcp", addr, 2*time.Second)
+		return pl.Dial()
 	}}
 	defer h2.CloseIdleConnections()
 
@@ -223,7 +225,7 @@ func runH(c HCase) error {
 			cancel()
 			status, challenge = resp.StatusCode, resp.Header.Get("WWW-Authenticate")
 		default:
-			conn, e := net.DialTimeout("tcp", addr, 2*time.Second)
+			conn, e := pl.Dial()
 			if e != nil {
 				return fx.Inconclusive("%v", e)
 			}
